@@ -16,6 +16,8 @@ while args:
         mx = int(args.pop(0))
     elif a == "--seed":
         seed = int(args.pop(0))
+    elif a in ("--bodies", "--conds", "--only-new"):
+        pass
     else:
         files.append(a)
 W = f"/tmp/mut/{tag}"
@@ -60,7 +62,58 @@ for f in files:
                     cands.append((f, i, line, new, f"{pat} -> {rep}"))
         if STMT.match(code) and not code.strip().startswith(("return", "let", "break", "continue", "drop(")):
             cands.append((f, i, line, re.match(r"^\s*", line).group(0) + "// (statement deleted)", "delete statement"))
+# cargo-mutants' main operator: replace a whole function body by a default of its return type
+FN = re.compile(r"^(\s*)(pub(\([a-z]+\))? )?(const )?(async )?fn ([a-z_0-9]+)\b.*?(?:-> (.*?))? \{\s*$")
+DEFAULTS = {None: [""], "()": [""], "bool": ["true", "false"], "usize": ["0", "1"], "u32": ["0", "1"], "Result<()>": ["Ok(())"],
+            "io::Result<()>": ["Ok(())"], "Poll<io::Result<()>>": ["Poll::Ready(Ok(()))"], "Poll<Result<()>>": ["Poll::Ready(Ok(()))"],
+            "Poll<io::Result<usize>>": ["Poll::Ready(Ok(0))", "Poll::Ready(Ok(1))"], "Option<()>": ["None", "Some(())"]}
+body_cands = []
+if "--bodies" in sys.argv or os.environ.get("MUT_BODIES"):
+    for f in files:
+        src = open(os.path.join(WT, f)).read().split("\n")
+        in_test = False
+        for i, line in enumerate(src):
+            if "#[cfg(test)]" in line or "mod tests" in line:
+                in_test = True
+            m = FN.match(line)
+            if in_test or not m:
+                continue
+            ret = m.group(7)
+            ret = ret.strip() if ret else None
+            if ret not in DEFAULTS:
+                continue
+            depth, j = 0, i
+            while j < len(src):
+                depth += src[j].count("{") - src[j].count("}")
+                if depth == 0:
+                    break
+                j += 1
+            if j >= len(src) or j - i < 2:
+                continue
+            for dv in DEFAULTS[ret]:
+                body_cands.append((f, i, j, m.group(1) + "    " + dv, f"body of {m.group(6)} -> {dv or '()'}"))
+# conditions forced
+for f in files:
+    src = open(os.path.join(WT, f)).read().split("\n")
+    in_test = False
+    for i, line in enumerate(src):
+        if "#[cfg(test)]" in line or "mod tests" in line:
+            in_test = True
+        if in_test or SKIP_LINE.match(line):
+            continue
+        m = re.match(r"^(\s*)(\} else )?if (?!let )(.+) \{\s*$", line)
+        if m and "--conds" in sys.argv:
+            for v in ("true", "false"):
+                cands.append((f, i, line, f"{m.group(1)}{m.group(2) or ''}if {v} {{", f"condition forced {v}"))
+        for pat, rep in ((r"\+= 1\b", "+= 2"), (r"-= 1\b", "-= 0"), (r"== 0\b", "== 1"), (r"> 0\b", "> 1"), (r"\.take\(\)", ".clone()")):
+            if "--conds" in sys.argv:
+                for mm in re.finditer(pat, line.split("//")[0]):
+                    new = line[:mm.start()] + rep + line[mm.end():]
+                    cands.append((f, i, line, new, f"{pat} -> {rep}"))
+if "--only-new" in sys.argv:
+    cands = [c for c in cands if c[4].startswith("condition forced") or c[4].startswith("\\+=") or c[4].startswith("-=") or c[4].startswith("== 0") or c[4].startswith("> 0") or c[4].startswith("\\.take")]
 random.Random(seed).shuffle(cands)
+random.Random(seed + 1).shuffle(body_cands)
 index = []
 n = 0
 for f, i, old, new, why in cands:
@@ -79,6 +132,21 @@ for f, i, old, new, why in cands:
         open(f"{W}/{n}.diff", "w").write(d)
         index.append(dict(n=n, file=f, line=i + 1, old=old.strip(), new=new.strip(), rule=why))
         print(n, f, i + 1, why, "|", old.strip()[:90], flush=True)
+    subprocess.run(["git", "-C", WT, "checkout", "-q", "--", "."], check=True)
+for f, i, j, repl, why in body_cands:
+    if n >= mx:
+        break
+    p = os.path.join(WT, f)
+    src = open(p).read().split("\n")
+    src[i + 1:j] = [repl] if repl.strip() else []
+    open(p, "w").write("\n".join(src))
+    r = subprocess.run(["cargo", "check", "--offline", "-q", "-j", "4", "-p", crate], cwd=WT, capture_output=True, text=True)
+    if r.returncode == 0:
+        d = subprocess.run(["git", "-C", WT, "diff"], capture_output=True, text=True).stdout
+        n += 1
+        open(f"{W}/{n}.diff", "w").write(d)
+        index.append(dict(n=n, file=f, line=i + 1, old=src[i].strip(), new=repl.strip(), rule=why))
+        print(n, f, i + 1, why, flush=True)
     subprocess.run(["git", "-C", WT, "checkout", "-q", "--", "."], check=True)
 json.dump(index, open(f"{W}/index.json", "w"), indent=1)
 print(len(index), "compiling mutants of", len(cands), "candidates")
